@@ -152,6 +152,17 @@ CHECKS.update({
         ref="DESIGN.md section 2 C07"),
 })
 
+CHECKS.update({
+    "C15": dict(
+        technique="runtime monitoring: monitors on the comparison branch of Phase.__array_ufunc__, on min/max/argmin/argmax/sort/argsort/"
+                  "ptp and on to_string/__format__/from_string, each judged against exact Fractions (ordering, extremum, permutation, "
+                  "decimal value and digit count)",
+        text="Exploration: arrays with ties and sub-double-resolution near-ties at counts up to 2^52 (every axis), comparisons with "
+             "Phases/numbers/Quantities, decimal strings in every accepted spelling (sign, no/leading/trailing point, zero parts, E/D "
+             "exponents, j) and renderings at precisions 0-18 / fixed-point format specs, incl. from_string(to_string(p)) round trips.",
+        ref="DESIGN.md section 2 C15"),
+})
+
 NOT_YET = {}
 
 
